@@ -306,7 +306,12 @@ impl<'a, D: DependencyProvider> Encoder<'a, D> {
             .or_default()
             .push((requirement, clause_id));
 
-        if conflict {
+        // The clause only conflicts with the current decisions if the solvable that
+        // carries the requirement is selected. If it is still undecided (its clauses are
+        // added eagerly because its dependencies are cheaply available) the clause merely
+        // prevents it from being selected later.
+        let parent_selected = self.state.decision_tracker.assigned_value(variable) == Some(true);
+        if conflict && parent_selected {
             self.conflicting_clauses.push(clause_id);
         } else if no_candidates {
             // Add assertions for unit clauses (i.e. those with no matching candidates)
@@ -374,8 +379,10 @@ impl<'a, D: DependencyProvider> Encoder<'a, D> {
                 .watches
                 .start_watching(watched_literals, clause_id);
 
-            // Mark conflicting clauses
-            if conflict {
+            // Mark conflicting clauses. The clause only conflicts with the current
+            // decisions if the solvable that carries the constraint is selected (see
+            // `on_requirement_candidates_available`).
+            if conflict && self.state.decision_tracker.assigned_value(variable) == Some(true) {
                 self.conflicting_clauses.push(clause_id);
             }
         }
